@@ -283,6 +283,30 @@ def check(ctx, rep: Report):
         raise AnalysisError(f"C03.R: anchors vanished (raw={nraw}, dict stores={ndict})")
 
 
+    # ---- VAL: validated / bounded types used as annotations conform exactly (shared with C15.B)
+    rep.rules["C03.VAL"] = "bounded(): the validator rejects exactly the out-of-range values, including zero (falsy) bounds"
+    import itertools
+    from .c15 import bounded_worker
+    combos = []
+    for name in ("ge", "gt", "le", "lt"):
+        for o in ("lt", "eq", "gt"):
+            for truthy in (True, False):
+                ordd = {k: None for k in ("ge", "gt", "le", "lt")}
+                ordd[name] = o
+                combos.append({"ord": ordd, "truthy": truthy})
+    bad = []
+    for r in pmap(bounded_worker, combos):
+        o = r["combo"]["ord"]
+        exp = not ((o["ge"] == "lt") or (o["gt"] in ("lt", "eq")) or (o["le"] == "gt") or (o["lt"] in ("gt", "eq")))
+        if r["res"] != [("ok", exp)]:
+            which = ", ".join(f"obj {dict(lt='<', eq='==', gt='>')[v]} {k}" for k, v in o.items() if v)
+            bad.append(f"{which}{'' if r['combo']['truthy'] else ' (bound is 0 / falsy)'}: expected {exp}, got {r['res']}")
+    rep.evaluations += len(combos)
+    rep.oblige("C03.VAL", "bounded.validator", not bad, "; ".join(bad[:2]))
+    for b in sorted(set(bad))[:3]:
+        rep.violate(Violation("C03.VAL", f"C03.VAL|{b[:80]}", f"bounded(): {b}: out-of-range values are stored in attributes annotated with the bounded type", "", "bounded.<locals>.validator"))
+
+
 def _is_mutator_chain(expr) -> bool:
     """<x>.get_collection_mutator(...).<op>(...)[.<op>(...)]*.collection"""
     if not (isinstance(expr, ast.Attribute) and expr.attr == "collection"):
@@ -298,3 +322,4 @@ def _is_mutator_chain(expr) -> bool:
         ops += 1
         cur = cur.func.value
     return False
+
